@@ -1,5 +1,6 @@
 import Jwt.Lemmas.Verify
 import Jwt.Checker
+import Jwt.Builder
 /-!
 # C13 — a verdict depends only on configuration, token and clock (checker side; builder in C13b)
 -/
@@ -67,6 +68,34 @@ theorem C13_history (ck : Checker) (calls : List Call) :
       simp only [runAll, run, freshAnswers]
       refine ⟨?_, by rw [h2.2]; rfl⟩
       rw [h2.1, freshAnswers_cfg ck.errorClear ck rfl]
+
+/-- **Builders.** What `generate` returns does not depend on the builder's error state (in
+particular not on earlier failed generates — in the callback or on the key — or on error_clear), and
+generating leaves the configuration unchanged; so a reused builder generates what a fresh
+identically configured one would. -/
+theorem C13_generate (env : Env) (b : Builder) :
+    (generate env b).2 = (generate env { cfg := b.cfg, error := false, msg := none }).2 ∧
+    (generate env b).1.cfg = b.cfg := by
+  unfold generate Builder.writeError
+  cases hg : generateCore env b.cfg with
+  | mk ex rest => cases ex <;> exact ⟨rfl, rfl⟩
+
+/-- run a list of generates (each under its own clock/provider/oracles), collecting the tokens -/
+def genAll : Builder → List Env → Builder × List (Option Bytes)
+  | b, [] => (b, [])
+  | b, e :: es => let r := generate e b; let rest := genAll r.1 es; (rest.1, r.2 :: rest.2)
+
+theorem C13_generate_history (b : Builder) (envs : List Env) :
+    (genAll b envs).2 = envs.map (fun e => (generate e { cfg := b.cfg, error := false, msg := none }).2) ∧
+    (genAll b envs).1.cfg = b.cfg := by
+  induction envs generalizing b with
+  | nil => exact ⟨rfl, rfl⟩
+  | cons e es ih =>
+    have h1 := C13_generate e b
+    have h2 := ih (generate e b).1
+    simp only [genAll, List.map_cons]
+    refine ⟨?_, by rw [h2.2, h1.2]⟩
+    rw [h2.1, h1.1, h1.2]
 
 /-! ### non-vacuity: a state with the flag set and a stale message is a legitimate starting point -/
 example : (fresh { cfg := Checker.new.cfg, error := true, msg := some .claims }).error = false := rfl
